@@ -242,7 +242,11 @@ def main_run(prop: str, tier: str, seed: int, replay: str | None = None) -> int:
                "--out", str(out)]
         if replay:
             cmd += ["--replay", replay]
-        procs.append((sh, out, subprocess.Popen(cmd, env=env, cwd=str(ROOT),
+        wenv = dict(env)
+        if "PYTHONHASHSEED" not in os.environ:
+            # every shard gets its own hash seed (set iteration order reaches the tomography and result code)
+            wenv["PYTHONHASHSEED"] = str((seed * 64 + sh) % 4294967295)
+        procs.append((sh, out, subprocess.Popen(cmd, env=wenv, cwd=str(ROOT),
                                                 stdout=subprocess.DEVNULL,
                                                 stderr=subprocess.PIPE)))
     results, failed = [], []
